@@ -30,6 +30,11 @@ fn ext_menu() -> Vec<ExtSpec> {
         ExtSpec { crit: false, name: "unknown", val: Some("v"), known: None },
         ExtSpec { crit: true, name: "unknown", val: Some("v"), known: None },
         ExtSpec { crit: false, name: "x-other", val: None, known: None },
+        ExtSpec { crit: false, name: "bindname2", val: Some("v"), known: None },
+        ExtSpec { crit: true, name: "bindname-alt", val: Some("v"), known: None },
+        ExtSpec { crit: false, name: "x-bindpw-sha256", val: Some("v"), known: None },
+        ExtSpec { crit: false, name: "bindnam", val: Some("v"), known: None },
+        ExtSpec { crit: true, name: "1.3.6.1.4.1.1466.200370", val: None, known: None },
     ]
 }
 
@@ -163,7 +168,7 @@ pub fn run(tier: Tier) -> i32 {
     let rep = Reporter::new("C20", tier);
     let evals = AtomicU64::new(0);
     let nontrivial = AtomicU64::new(0);
-    let bases = ["", "dc=example,dc=com", "o=a?b", "cn=a b", "cn=é", "cn=a%b", "cn=a#b", "cn=100%25,o=x/y"];
+    let bases = ["", "dc=example,dc=com", "o=a?b", "cn=a b", "cn=é", "cn=a%b", "cn=a#b", "cn=100%25,o=x/y", "/c=US/o=Example", "//", " cn=sp "];
     let attrs: Vec<Option<Vec<String>>> = vec![None, Some(vec![]), Some(vec!["cn".into()]), Some(vec!["cn".into(), "sn".into()]), Some(vec!["*".into(), "+".into()])];
     let scopes: Vec<Option<&str>> = vec![None, Some(""), Some("base"), Some("one"), Some("sub"), Some("subtree"), Some("BASE")];
     let filters: Vec<Option<&str>> = vec![None, Some(""), Some("(cn=a)"), Some("(cn=a?b)"), Some("(cn=a,b)"), Some("(cn=%)"), Some("(cn=é)"), Some("(&(a=b)(c=#d))")];
@@ -202,6 +207,7 @@ pub fn run(tier: Tier) -> i32 {
                 scope: scopes[ix[2]].map(|s| s.to_string()),
                 filter: filters[ix[3]].map(|s| s.to_string()),
                 exts: exts.iter().map(|e| (e.crit, e.name.to_string(), e.val.map(|v| v.to_string()))).collect(),
+                raw_slash: ix[5] == 1 && ix[1] % 2 == 0,
             },
             exts,
             keep_trailing: ix[5] == 1,
@@ -237,7 +243,7 @@ pub fn run(tier: Tier) -> i32 {
         ("rule", json!("full product of base DNs x attribute lists x scope words x filters x extension lists (length <= 2, thorough: a subset of length 3) x {trailing '?' kept, dropped}, formatted by the independent RFC 4516 formatter with percent-encoding; distinct by construction; non-trivial = at least one optional component present")),
         ("product_size", json!(total)),
         ("non_utf8_cases", json!(bad)),
-        ("samples", json!([format_url(&UrlParts { base: "o=a?b".into(), attrs: Some(vec!["cn".into()]), scope: Some("one".into()), filter: Some("(cn=a?b)".into()), exts: vec![(true, "bindname".into(), Some("cn=x,dc=y".into()))] }, false)])),
+        ("samples", json!([format_url(&UrlParts { base: "o=a?b".into(), attrs: Some(vec!["cn".into()]), scope: Some("one".into()), filter: Some("(cn=a?b)".into()), exts: vec![(true, "bindname".into(), Some("cn=x,dc=y".into()))], raw_slash: false }, false)])),
         ("exhaustive", json!(true)),
     ]);
     rep.finish("exploration", c, vec!["the RFC 4516 formatter of vcore is correct; the url crate parses what it formats".into()])
